@@ -1069,7 +1069,292 @@ def ev_input_forms(case):
     return {"fails": fails, "n": nev, "tags": tags, "slack": slack, "skipped": skipped, "sample": {"config": cfg, "arg": arg, "forms": [f[0] for f in input_forms(arg, des)]}}
 
 
-EVALUATORS = {"input_forms": ev_input_forms, "scores": ev_scores, "select": ev_select, "select_nnf": ev_select_nnf, "diffev": ev_diffev, "select_mp": ev_select_mp, "two_models": ev_two_models}
+
+# ------------------------------------------------------------------ evaluator: hyper-parameter vector forms
+THETA_OPS = ["marginal_likelihood", "marginal_likelihood_gradient", "loo_likelihood", "loo_likelihood_gradient", "set_hyperparameters+predict", "set_hyperparameters+loo_predictions"]
+EPS64 = float(np.finfo(np.float64).eps)
+EPS32 = float(np.finfo(np.float32).eps)
+
+
+def integer_theta(kspec, mspec, theta, des):
+    """the lattice point moved to integer values (all hyper-parameters are unconstrained reals except change-point widths, which stay >= 1)"""
+    from mc.ref import gpref_b as G
+
+    d = des["d"]
+    out = [float(round(t)) for t in theta]
+    pcl = param_classes(kspec, mspec, d)
+    for j, c in enumerate(pcl):
+        if c.endswith("CP.changepoint"):
+            first = next(i for i, cc in enumerate(pcl) if cc.endswith("CP.changepoint"))
+            if (j - first) % 2 == 1:  # (location, width) pairs
+                out[j] = max(1.0, out[j])
+    return out
+
+
+def theta_forms(vals, integer):
+    """[(form name, object handed to the library, the equivalent float64 array)] for one hyper-parameter vector"""
+    a = np.array(vals, dtype=np.float64)
+    ro = a.copy()
+    ro.setflags(write=False)
+    big = np.zeros(3 * a.size + 1)
+    big[1::3] = a
+    rev = np.ascontiguousarray(a[::-1])
+    f32 = a.astype(np.float32)
+    forms = [
+        ("list-of-floats", [float(v) for v in a], a), ("tuple-of-floats", tuple(float(v) for v in a), a), ("list-of-numpy-floats", [np.float64(v) for v in a], a),
+        ("strided-view", big[1::3], a), ("reversed-view", rev[::-1], a), ("read-only-array", ro, a),
+        ("float32-array", f32, f32.astype(np.float64)), ("float32-strided-view", np.repeat(f32, 2)[::2], f32.astype(np.float64)),
+        ("longdouble-array", a.astype(np.longdouble), a),
+    ]
+    if integer:
+        i64 = a.astype(np.int64)
+        forms = [
+            ("int64-array", i64, a), ("int32-array", a.astype(np.int32), a), ("list-of-ints", [int(v) for v in a], a), ("tuple-of-ints", tuple(int(v) for v in a), a),
+            ("int64-strided-view", np.repeat(i64, 2)[::2], a), ("int64-read-only-array", (lambda z: (z.setflags(write=False), z)[1])(i64.copy()), a),
+            ("list-mixing-ints-and-floats", [int(v) if j % 2 else float(v) for j, v in enumerate(a)], a),
+        ] + forms
+    return forms
+
+
+def _snapshot(obj):
+    if isinstance(obj, np.ndarray):
+        return (obj.dtype.str, obj.shape, obj.tobytes())
+    return (type(obj).__name__, tuple((type(v).__name__, float(v)) for v in obj))
+
+
+def theta_op(gp, op, theta, points):
+    """one operation with the hyper-parameter vector handed over AS IS -> list of (component, float64 array)"""
+    with lib(op):
+        if op.startswith("set_hyperparameters+"):
+            gp.set_hyperparameters(theta)
+            mu, sg = gp(points.copy()) if op.endswith("predict") else gp.loo_predictions()
+            return [("mean", np.array(mu, dtype=float)), ("sigma", np.array(sg, dtype=float))]
+        res = getattr(gp, op)(theta)
+        if op.endswith("_gradient"):
+            return [("value", np.array(float(res[0]))), ("gradient", np.array(res[1], dtype=float))]
+        return [("value", np.array(float(res)))]
+
+
+def ev_theta_forms(case):
+    """reject or be right: every score / gradient / leave-one-out method given the hyper-parameter vector in another numeric container form
+    must return what it returns for the equivalent float64 array (or refuse the form)"""
+    from inference.gp import GpRegressor
+
+    des, kspec, mspec = case["design"], case["kernel"], case["mean"]
+    n, d = des["n"], des["d"]
+    integer = case["integer"]
+    vals = integer_theta(kspec, mspec, case["theta"], des) if integer else [float(t) for t in case["theta"]]
+    X, y = np.array(des["X"], dtype=float), np.array(des["y"], dtype=float)
+    points = np.vstack([X[:-1] + 0.37 * (X[1:] - X[:-1]), X.min(axis=0) - 0.2 * (X.max(axis=0) - X.min(axis=0))])
+    cfg = "k=%s,m=%s,d=%d,n=%d,noise=%s" % (kname(kspec), mspec, d, n, des["noise"])
+    fails, tags, slack, seen, skipped = [], set(), {}, set(), {}
+    nev = 0
+
+    def add(key, what, **ctx):
+        if key not in seen:
+            seen.add(key)
+            fails.append(fail(key, what, config=cfg, theta=list(vals), **ctx))
+
+    def build(th0):
+        with lib("construct"):
+            g = GpRegressor(X.copy(), y.copy(), kernel=lib_kernel(kspec), mean=lib_mean(mspec), hyperpars=np.array(th0, dtype=float), **noise_kwargs(des))
+        if g.n_hyperpars != len(vals):
+            raise HarnessError("hyper-parameter layout: model has %d, case %d" % (g.n_hyperpars, len(vals)))
+        return g
+
+    canon = {}
+
+    def canonical(a64):
+        key = a64.tobytes()
+        if key not in canon:
+            g = build(case["theta"])
+            pm = g.n_hyperpars - g.cov.n_params
+            with lib("build_covariance"):
+                A = np.asarray(g.cov.build_covariance(a64[pm:].copy()), dtype=float) + np.asarray(g.sig, dtype=float)
+            sv = np.linalg.svd(A, compute_uv=False)
+            cond = float(sv[0] / sv[-1]) if sv[-1] > 0 else float("inf")
+            want = {}
+            if cond <= COND_MAX:
+                for op in THETA_OPS:
+                    want[op] = theta_op(build(case["theta"]), op, a64.copy(), points)
+            canon[key] = (want, cond)
+        return canon[key]
+
+    for fname, obj, a64 in theta_forms(vals, integer):
+        want, cond = canonical(a64)
+        if not cond <= COND_MAX:
+            skipped["cond(K+S) > 1e10"] = skipped.get("cond(K+S) > 1e10", 0) + 1
+            continue
+        # numpy computes in single precision where only float32 operands meet (exp of the float32 hyper-parameters): its own rounding is allowed for
+        eps = EPS32 if fname.startswith("float32") else EPS64
+        rtol = max(TWO_RTOL, 64 * eps * cond)
+        outcome = set()
+        for op in THETA_OPS:
+            before = _snapshot(obj)
+            try:
+                got = theta_op(build(case["theta"]), op, obj, points)
+            except LibFailure as e:
+                outcome.add("refused(%s)" % e.exc_type)
+                continue
+            nev += 1
+            outcome.add("accepted")
+            if _snapshot(obj) != before:
+                add("theta-forms/%s/%s/hyper-parameter-vector-modified" % (fname, op), "%s changed the hyper-parameter vector it was given (%s)" % (op, fname), form=fname, op=op)
+            for (nm, g), (_, w) in zip(got, want[op]):
+                if g.shape != w.shape:
+                    r = float("inf")
+                elif g.tobytes() == w.tobytes():
+                    r = 0.0
+                elif not (np.all(np.isfinite(g)) and np.all(np.isfinite(w))):
+                    r = float("inf")
+                else:
+                    r = float(np.abs(g - w).max()) / max(float(np.abs(w).max()), 1.0 if nm == "value" else 0.0, 1e-300)
+                sk = "theta-forms/%s/%s" % ("float32" if eps == EPS32 else "exact-forms", op)
+                slack[sk] = max(slack.get(sk, 0.0), (r / rtol) if np.isfinite(r) else 0.0)
+                if not r <= rtol:
+                    add("theta-forms/%s/%s-%s-differs-from-float64-array" % (fname, op, nm),
+                        "%s given the hyper-parameters as %s %r returns %s = %s, whereas the equivalent float64 array gives %s (relative difference %.3g, allowed %.3g)"
+                        % (op, fname, obj if not isinstance(obj, np.ndarray) else obj.tolist(), nm, g.tolist(), w.tolist(), r, rtol), form=fname, op=op, observed=g.tolist(), expected=w.tolist())
+        tags.add("theta form %s%s: %s" % (fname, ",integer-valued" if integer else "", "+".join(sorted(outcome))))
+    tags.add("theta-forms-config %s,integer=%s" % (cfg, integer))
+    return {"fails": fails, "n": nev, "tags": tags, "slack": slack, "skipped": skipped, "sample": {"config": cfg, "theta": list(vals), "forms": [f[0] for f in theta_forms(vals, integer)]}}
+
+
+
+# ------------------------------------------------------------------ evaluator: many accurately measured points
+LARGE_U_MAX = 1.0  # n eps cond(K+S) beyond which double precision says nothing about the scores (skipped and counted)
+
+
+def numpy_kernel_1d(kspec, thc, x):
+    """(smooth part, index-delta part) of the documented covariance formula on 1-D points, in float64 numpy"""
+    dx2 = (x[:, None] - x[None, :]) ** 2
+    n = x.size
+    if kspec == "SE":
+        return math.exp(2 * thc[0]) * np.exp(-0.5 * dx2 / math.exp(2 * thc[1])), np.zeros((n, n)), 2
+    if kspec == "RQ":
+        al = math.exp(thc[1])
+        return math.exp(2 * thc[0]) * (1.0 + 0.5 * dx2 / (al * math.exp(2 * thc[2]))) ** (-al), np.zeros((n, n)), 3
+    if kspec == "WN":
+        return np.zeros((n, n)), math.exp(2 * thc[0]) * np.eye(n), 1
+    if kspec[0] == "+":
+        Ks, Kd, used = np.zeros((n, n)), np.zeros((n, n)), 0
+        for sub in kspec[1:]:
+            a, b, u = numpy_kernel_1d(sub, thc[used:], x)
+            Ks, Kd, used = Ks + a, Kd + b, used + u
+        return Ks, Kd, used
+    raise HarnessError("large-n reference: kernel %r" % (kspec,))
+
+
+def ev_large_n(case):
+    """hundreds of accurately measured points (1-D): marginal_likelihood / loo_likelihood by the value path and by the value-and-gradient
+    path must be finite, agree with each other and with a float64 numpy reference (slogdet / solve / inv of the documented covariance)"""
+    import warnings
+
+    from inference.gp import GpRegressor
+
+    des, kspec, mspec = case["design"], case["kernel"], case["mean"]
+    n = des["n"]
+    X, y = np.array(des["X"], dtype=float), np.array(des["y"], dtype=float)
+    x = X[:, 0]
+    err = np.array(des["y_err"], dtype=float)
+    cfg = "k=%s,m=%s,n=%d,x=%s,yerr/range=%g" % (kname(kspec), mspec, n, des["kind"], case["level"])
+    fails, tags, slack, skipped, seen = [], set(), {}, {}, set()
+    nev = 0
+    sample = None
+
+    def add(key, what, **ctx):
+        if key not in seen:
+            seen.add(key)
+            fails.append(fail(key, what, config=cfg, **ctx))
+
+    def upd(name, e, tol):
+        r = float(e) / float(tol) if np.isfinite(e) else float("inf")
+        slack[name] = max(slack.get(name, 0.0), r)
+        return r
+
+    pm = {"C": 1, "L": 2}[mspec]
+    gp = None
+    for theta in case["thetas"]:
+        th = np.array(theta, dtype=float)
+        ctx = {"theta": list(theta)}
+        if gp is None:
+            with lib("construct"):
+                gp = GpRegressor(X.copy(), y.copy(), y_err=err.copy(), kernel=lib_kernel(kspec), mean=lib_mean(mspec), hyperpars=th.copy())
+            if gp.n_hyperpars != len(theta):
+                raise HarnessError("hyper-parameter layout: model has %d, reference %d" % (gp.n_hyperpars, len(theta)))
+        # ---- reference covariance: documented formula + stated error variances + the model's own diagonal stabiliser (measured, must be in range)
+        Ks, Kd, used = numpy_kernel_1d(kspec, list(th[pm:]), x)
+        if used != len(theta) - pm:
+            raise HarnessError("kernel hyper-parameter count")
+        with lib("build_covariance"):
+            Kc = np.asarray(gp.cov.build_covariance(th[pm:].copy()), dtype=float)
+        rho = (np.diag(Kc) - np.diag(Ks) - np.diag(Kd)) / np.diag(Ks)
+        if (rho < -64 * EPS64 * (1 + np.diag(Kd) / np.diag(Ks))).any() or (rho > RHO_MAX).any():
+            add("jitter/%s/outside-documented-range" % kname(kspec), "relative diagonal stabiliser in [%.3g, %.3g], not in [0, %g]" % (rho.min(), rho.max(), RHO_MAX), **ctx)
+        rho = np.clip(rho, 0.0, RHO_MAX)
+        K = Ks + Kd + np.diag(rho * np.diag(Ks)) + np.diag(err**2)
+        mu = np.full(n, th[0]) if mspec == "C" else th[0] + (x - x.mean()) * th[1]
+        r = y - mu
+        w = np.linalg.eigvalsh(K)
+        if w[0] <= 0:
+            skipped["reference covariance not positive definite in float64"] = skipped.get("reference covariance not positive definite in float64", 0) + 1
+            continue
+        cond = float(w[-1] / w[0])
+        u = n * EPS64 * cond
+        if u > LARGE_U_MAX:
+            skipped["n eps cond(K+S) > 1"] = skipped.get("n eps cond(K+S) > 1", 0) + 1
+            continue
+        sign, ld = np.linalg.slogdet(K)
+        alpha = np.linalg.solve(K, r)
+        iK = np.linalg.inv(K)
+        quad = float(r @ alpha)
+        lml_ref = -0.5 * quad - 0.5 * float(ld)
+        dK = np.diag(iK)
+        var = 1.0 / dK
+        loo_ref = float(-0.5 * (var * alpha**2 + np.log(var)).sum())
+        # first-order rounding of any backward-stable evaluation (reference and library alike): relative n eps cond on the quadratic form,
+        # tr(K^-1 E) <= n (n eps cond) on the log-determinant; leave-one-out: entries of K^-1 to n eps cond ||K^-1||, alpha to n eps cond ||alpha||
+        tol_lml = 4 * u * 0.5 * abs(quad) + 2 * n * u + 64 * EPS64 * (abs(lml_ref) + n)
+        d_ik = 4 * u * float(np.abs(np.linalg.eigvalsh(iK)).max())
+        d_al = 4 * u * float(np.linalg.norm(alpha))
+        tol_loo = float((0.5 * (2 * np.abs(alpha) * d_al / dK + alpha**2 * d_ik / dK**2) + 0.5 * d_ik / dK).sum()) + 64 * EPS64 * (abs(loo_ref) + n)
+        const = 0.5 * n * math.log(2 * math.pi)
+
+        with warnings.catch_warnings(record=True) as wlist:
+            warnings.simplefilter("always")
+            with lib("marginal_likelihood"):
+                v1 = float(gp.marginal_likelihood(th.copy()))
+            with lib("marginal_likelihood_gradient"):
+                v2, g2 = gp.marginal_likelihood_gradient(th.copy())
+            with lib("loo_likelihood"):
+                l1 = float(gp.loo_likelihood(th.copy()))
+            with lib("loo_likelihood_gradient"):
+                l2, gl2 = gp.loo_likelihood_gradient(th.copy())
+        nev += 4
+        v2, l2 = float(v2), float(l2)
+        g2, gl2 = np.asarray(g2, dtype=float), np.asarray(gl2, dtype=float)
+        obs = dict(marginal_likelihood=v1, marginal_likelihood_gradient_value=v2, loo_likelihood=l1, loo_likelihood_gradient_value=l2, cond=cond, warnings=[str(w_.message)[:80] for w_ in wlist][:3], **ctx)
+        for nm, v in (("lml/value-path", v1), ("lml/gradient-path-value", v2), ("loo/value-path", l1), ("loo/gradient-path-value", l2)):
+            if not np.isfinite(v):
+                add("large-n/%s/not-finite" % nm, "%s = %r for %d points measured to %g of the data range (cond(K+S) = %.3g, reference %s = %r)" % (nm, v, n, case["level"], cond, nm[:3], lml_ref if nm.startswith("lml") else loo_ref), **obs)
+        for nm, g in (("lml", g2), ("loo", gl2)):
+            if g.shape != (len(theta),) or not np.all(np.isfinite(g)):
+                add("large-n/%s/gradient-not-finite" % nm, "gradient %s" % g.tolist(), **obs)
+        for nm, a, b, ref, tol in (("lml", v1, v2, lml_ref, tol_lml), ("loo", l1, l2, loo_ref, tol_loo)):
+            if not (np.isfinite(a) and np.isfinite(b)):
+                continue
+            if upd("large-n/%s-paths-agree" % nm, abs(a - b), 2 * tol) > 1:
+                add("large-n/%s/value-path-differs-from-gradient-path" % nm, "value path %r, value-and-gradient path %r (tol %.3g, cond %.3g)" % (a, b, 2 * tol, cond), **obs)
+            for pn, v in (("value-path", a), ("gradient-path-value", b)):
+                e, _ = either_constant(v, ref, const, tol)
+                if upd("large-n/%s-%s-vs-numpy" % (nm, pn), e, tol) > 1:
+                    add("large-n/%s/%s-vs-reference" % (nm, pn), "%s %s = %r, float64 numpy reference %r (tol %.3g, cond %.3g)" % (nm, pn, v, ref, tol, cond), **obs)
+        tags.add(cfg + ",cond=1e%d" % int(math.log10(cond)))
+        sample = {"config": cfg, "theta": list(theta), "lml": v1, "lml_ref": lml_ref, "loo": l1, "loo_ref": loo_ref, "cond": cond, "tol_lml": tol_lml, "tol_loo": tol_loo}
+    return {"fails": fails, "n": nev, "tags": tags, "slack": slack, "skipped": skipped, "sample": sample}
+
+
+EVALUATORS = {"large_n": ev_large_n, "theta_forms": ev_theta_forms, "input_forms": ev_input_forms, "scores": ev_scores, "select": ev_select, "select_nnf": ev_select_nnf, "diffev": ev_diffev, "select_mp": ev_select_mp, "two_models": ev_two_models}
 
 
 # --------------------------------------------------------------------------- run
@@ -1308,7 +1593,54 @@ def run(ck):
     ck.run_cases("input_forms", fcases, chunk=1)
     ck.extra["input_form_cases"] = len(fcases)
 
+    # ---------------------------------------------------------------- hyper-parameter vector forms: reject or be right
+    tcases = []
+    for ki, kspec in enumerate(KERNELS):
+        for mi, mspec in enumerate(MEANS):
+            if quick and (ki + mi + seed) % 3:
+                continue
+            for j in range(1 if quick else 3):
+                rot = seed + ki + 2 * mi + j
+                n, d = fnd[rot % len(fnd)]
+                des = make_design(n, d, kinds[rot % 4], seed, noises[rot % 3])
+                lat = hp_lattice(kspec, mspec, des, (9, rot))
+                for integer in (True, False):
+                    tcases.append({"design": des, "kernel": kspec, "mean": mspec, "theta": lat[(rot + 2 + int(integer)) % len(lat)], "integer": integer})
+    ck.run_cases("theta_forms", tcases, chunk=1)
+    ck.extra["theta_form_cases"] = len(tcases)
+
+    # ---------------------------------------------------------------- hundreds of accurately measured points (float64 numpy reference)
+    lcases = []
+    lkm = [("SE", "C"), ("RQ", "L"), (["+", "SE", "WN"], "C"), ("SE", "L"), ("RQ", "C")]
+    lkinds = ["regular", "irregular", "clustered"]
+    llevels = [1e-2, 1e-4, 1e-6] if quick else [1e-2, 1e-3, 1e-4, 1e-5, 1e-6]
+    lpats = [(1, 1, 0, 0), (0, 2, 1, 1), (2, 0, 2, 2)]
+    for ni, n in enumerate((100, 300, 600)):
+        for li, level in enumerate(llevels):
+            for ci, (kspec, mspec) in enumerate(lkm):
+                for xi, kind in enumerate(lkinds):
+                    if quick and ((ni + li + seed) % len(lkm) != ci or (ni + 2 * li + seed) % 3 != xi):
+                        continue
+                    if not quick and (ni + li + ci + xi + seed) % 2:
+                        continue
+                    des = make_smooth_design(n, 1, kind, seed, level)
+                    sc = design_scales(des)
+                    thetas = [mean_theta(mspec, im, sc) + kernel_theta(kspec, (ia, il, ie), sc, "y_err") for im, ia, il, ie in lpats]
+                    lcases.append({"design": des, "kernel": kspec, "mean": mspec, "thetas": thetas, "level": level})
+    lcases.sort(key=lambda c: -c["design"]["n"])
+    ck.run_cases("large_n", lcases, chunk=1)
+    ck.extra["large_n_cases"] = len(lcases)
+
     ck.rule = (
+        "theta_forms (keys theta-forms/<form>/<operation>-<part>-differs-from-float64-array, ../hyper-parameter-vector-modified): marginal_likelihood, marginal_likelihood_gradient, loo_likelihood, "
+        "loo_likelihood_gradient and set_hyperparameters followed by prediction / loo_predictions, each on a new model, given the hyper-parameter vector as {list / tuple of Python floats, list of numpy "
+        "floats, strided view, reversed view, read-only array, float32 array, float32 strided view, longdouble array} and, for lattice points moved to integer values, also {int64 array, int32 array, "
+        "list / tuple of Python ints, int64 strided view, read-only int64 array, list mixing ints and floats}: a form that is not refused with an exception must give the results of the equivalent float64 array "
+        "(bit for bit, else max(1e-12, 64 eps cond(K+S)) relative; eps = float32 epsilon for the float32 forms) and must not be modified; %d cases over the kernels x means x rotating designs. "
+        "large_n (keys large-n/..): n in {100, 300, 600} points in one dimension, a smooth signal measured to {1e-2, 1e-4, 1e-6} (thorough also 1e-3, 1e-5) of its range, inputs {regular, irregular, pairs 0.013 apart}, "
+        "(kernel, mean) in {SE+const, RQ+linear, SE+WN+const, SE+linear, RQ+const} (quick: a Latin selection rotating with the seed; thorough: half of the product), three hyper-parameter vectors each: "
+        "marginal_likelihood and loo_likelihood by the value path and by the value-and-gradient path must be finite (gradients too), agree with each other and with a float64 numpy reference (slogdet / solve / inv of "
+        "the documented covariance + stated variances + the model's measured diagonal stabiliser) within first-order rounding bounds proportional to n eps cond(K+S); %d cases. "
         "input_forms (keys forms/..): for each of the constructor arguments y_err, y_cov, y, x every listed container form of the SAME numbers (y_err / y: (N,1), (1,N), (N,1,1) arrays, list, tuple, list of 1-lists, "
         "(1,N) list, strided views; y_err also a Python float, 0-d, length-1 and (1,1) array, length-1 list meaning one error for all points; y_cov: list of lists, tuple of tuples, list of row arrays, Fortran order, "
         "strided view, (1,N,N), (N,N,1); x: flat / list / tuple / list of 1-lists / strided / (1,N) / (N,1,1) for d = 1, list of lists / tuple of tuples / list of rows / Fortran order / strided / (N,d,1) / transposed for d = 2) "
@@ -1328,8 +1660,14 @@ def run(ck):
         "distinct = (n_starts, n_processes, n_starts mod n_processes). two_models: two GpRegressor objects, every ordered pair of construction styles {no kernel/mean argument, default classes passed "
         "explicitly, own instances (rotating kernel/mean), ChangePoint from classes + mean class} (16; three objects: %d triples), each with its own data (size, dimension, layout, noise model), "
         "objects {all built first, each built at first use}: every sequence of operations (object, {marginal_likelihood, loo_likelihood, their gradient variants, prediction at new points, "
-        "loo_predictions}), compared bit-for-bit (else 1e-12) with the same operation on that object alone." % len(trip)
+        "loo_predictions}), compared bit-for-bit (else 1e-12) with the same operation on that object alone." % (len(tcases), len(lcases), len(trip))
     )
+    ck.assume("hyper-parameter vector forms: which forms a method accepts is not part of the claim (an exception of any type counts as a refusal and is tagged); numpy evaluates exp() of float32 "
+              "hyper-parameters in single precision, so for float32 vectors agreement with the float64 array of the same values is required to float32 rounding (64 eps32 cond) only; integer forms are "
+              "int32 / int64 / Python ints (narrower integer types, which numpy maps to half / single precision, are not exercised)")
+    ck.assume("large-n: the reference is float64 numpy (no 50-digit arithmetic at this size), so the oracle is limited to the first-order rounding bound 4 n eps cond(K+S) on the quadratic form, "
+              "2 n^2 eps cond on the half log-determinant and the corresponding bound on the leave-one-out terms; hyper-parameter vectors with n eps cond(K+S) > 1 are skipped and counted; gradients at this "
+              "size are only required to be finite (their values are checked against the 50-digit reference for n <= 8)")
     ck.assume("input forms: which container forms the constructor accepts is not part of the claim (any may be refused with ValueError / TypeError; a constructor that breaks with another exception type on "
               "an undocumented form, e.g. AttributeError for y_cov given as a list, produces no model and is counted in a separate tag, not as a violation); a scalar / length-1 y_err, if accepted, can only mean the same error for every point")
     ck.assume("continuous inputs are represented by the listed finite lattices; n <= 8 (50-digit reference); points with cond(K+S) > 1e10 are skipped and counted")
